@@ -45,17 +45,49 @@ func c19(c *Ctx) {
 			}
 			return true
 		})
-		c.Check(first == pb.Name()+".Set()" && second == pa.Name()+".Set()", "R1", "sdk/resource|Merge|NewMergeIterator(b.Set(), a.Set())", at(rx.M, merge.Pos()), "b's value wins on shared keys", "merge iterator built as ("+first+", "+second+"): on shared keys a's value wins — the update direction of Merge is inverted")
-		// the iterator is drained completely into combine
-		apps := g.Match(func(n ast.Node) bool {
-			as, ok := n.(*ast.AssignStmt)
-			return ok && len(as.Rhs) == 1 && isAppendTo(info, as.Rhs[0], func(ast.Expr) bool { return true }) && strings.Contains(exprStr(as.Rhs[0]), ".Attribute()")
-		})
-		okDrain := len(apps) == 1
-		if okDrain {
-			okDrain, _ = totalFanout(g, apps[0])
+		// alternative form of the same union: all of a's attributes followed by all of b's, handed to the set constructor, which
+		// keeps the last value per key (slices.Concat(a.Attributes(), b.Attributes()) / append(a.Attributes(), b.Attributes()...))
+		concatOK, concatSeen := false, false
+		isAttrsOf := func(e ast.Expr, p *types.Var) bool {
+			call, ok := unparen(e).(*ast.CallExpr)
+			if !ok || !isCallTo(info, call, "(*"+sdkResource+".Resource).Attributes") {
+				return false
+			}
+			recv, _ := methodCall(info, call)
+			return recv != nil && sameVar(info, recv, p)
 		}
-		c.Check(okDrain, "R1", "sdk/resource|Merge|every merged attribute is collected", at(rx.M, merge.Pos()), "total loop over the merge iterator", "attributes can be skipped while combining: the union loses keys")
+		inspectNoLit(merge.Body(), func(n ast.Node) bool {
+			call, ok := n.(*ast.CallExpr)
+			if !ok {
+				return true
+			}
+			if isCallTo(info, call, "slices.Concat") && len(call.Args) == 2 {
+				concatSeen = true
+				concatOK = isAttrsOf(call.Args[0], pa) && isAttrsOf(call.Args[1], pb)
+			}
+			if builtinName(info, call) == "append" && len(call.Args) == 2 && call.Ellipsis.IsValid() && isAttrsOf(call.Args[1], pa) || (builtinName(info, call) == "append" && len(call.Args) == 2 && call.Ellipsis.IsValid() && isAttrsOf(call.Args[1], pb) && isAttrsOf(call.Args[0], pa)) {
+				if isAttrsOf(call.Args[0], pa) && isAttrsOf(call.Args[1], pb) {
+					concatSeen, concatOK = true, true
+				}
+			}
+			return true
+		})
+		if first == "" && concatSeen {
+			c.Check(concatOK, "R1", "sdk/resource|Merge|NewMergeIterator(b.Set(), a.Set())", at(rx.M, merge.Pos()), "a's attributes then b's, last value per key kept by the set constructor: b's value wins on shared keys", "the attributes are concatenated b first: on shared keys a's value wins — the update direction of Merge is inverted")
+			c.Check(concatOK, "R1", "sdk/resource|Merge|every merged attribute is collected", at(rx.M, merge.Pos()), "whole lists concatenated", "attributes can be skipped while combining: the union loses keys")
+		} else {
+			c.Check(first == pb.Name()+".Set()" && second == pa.Name()+".Set()", "R1", "sdk/resource|Merge|NewMergeIterator(b.Set(), a.Set())", at(rx.M, merge.Pos()), "b's value wins on shared keys", "merge iterator built as ("+first+", "+second+"): on shared keys a's value wins — the update direction of Merge is inverted")
+			// the iterator is drained completely into combine
+			apps := g.Match(func(n ast.Node) bool {
+				as, ok := n.(*ast.AssignStmt)
+				return ok && len(as.Rhs) == 1 && isAppendTo(info, as.Rhs[0], func(ast.Expr) bool { return true }) && strings.Contains(exprStr(as.Rhs[0]), ".Attribute()")
+			})
+			okDrain := len(apps) == 1
+			if okDrain {
+				okDrain, _ = totalFanout(g, apps[0])
+			}
+			c.Check(okDrain, "R1", "sdk/resource|Merge|every merged attribute is collected", at(rx.M, merge.Pos()), "total loop over the merge iterator", "attributes can be skipped while combining: the union loses keys")
+		}
 		for _, row := range []struct {
 			aNil, bNil bool
 			want       string
@@ -97,6 +129,12 @@ func c19(c *Ctx) {
 	inspectNoLit(merge.Body(), func(n ast.Node) bool {
 		if as, ok := n.(*ast.AssignStmt); ok && len(as.Lhs) == 1 && len(as.Rhs) == 1 && strings.Contains(exprStr(as.Rhs[0]), ".Attribute()") {
 			if call, ok := unparen(as.Rhs[0]).(*ast.CallExpr); ok && builtinName(info, call) == "append" {
+				combineVar = objOf(info, as.Lhs[0])
+			}
+		}
+		// the union built by concatenation (judged in R1): combine := slices.Concat(a.Attributes(), b.Attributes())
+		if as, ok := n.(*ast.AssignStmt); ok && len(as.Lhs) == 1 && len(as.Rhs) == 1 && combineVar == nil {
+			if call, ok := unparen(as.Rhs[0]).(*ast.CallExpr); ok && isCallTo(info, call, "slices.Concat") && len(call.Args) == 2 {
 				combineVar = objOf(info, as.Lhs[0])
 			}
 		}
